@@ -38,7 +38,7 @@ Lookup(r) ==
           /\ IF q.type \in DOMAIN c1.domains
              THEN /\ pc' = [pc EXCEPT ![r] = "sign"]                    \* hit: sign with what is held
                   /\ dom' = [dom EXCEPT ![r] = c1.domains[q.type]]
-                  /\ UNCHANGED <<fork, req, domreqs, insign, signed, result>>
+                  /\ UNCHANGED <<fork, boot, svc, req, domreqs, insign, signed, result>>
              ELSE FetchDomain(r)                                          \* miss: step 2, lock released
 
 \* step 3: the reply arrives (any time later) and is stored in one critical section
@@ -51,6 +51,7 @@ Store(r) ==
                                                      IF t = q.type THEN DomainValue(q, fork) ELSE cache.domains[t]]]
 
 CNext ==
+    \/ Start(TRUE) /\ UNCHANGED cache
     \/ \E r \in Rids, c \in CacheCalls : Call(r, c) /\ UNCHANGED cache
     \/ \E r \in Rids :
           \/ Lookup(r)
